@@ -1,10 +1,173 @@
-(* C04 — mapping semantics and nested-key canonicalisation.  Property theorems only. *)
-From Coq Require Import ZArith List String Bool.
+(* C04 — mapping semantics and nested-key canonicalisation match a nested-dict model.
+   Property theorems only: each is closed by [exact] of a lemma proved in Proofs/, followed by Print Assumptions
+   (parsed by the harness on every run).  Model: Model/C04_{Tree,Ops,Views,Step}.v (+ Model/Keys.v);
+   spec: Spec/C04_NestedDict.v (a plain python nested dict and the replay of a history on it). *)
+From Coq Require Import ZArith List String Bool Sorting.Permutation.
 Import ListNotations.
-From TD Require Import Model.Keys Proofs.KeysP.
+From TD Require Import Model.Keys Proofs.KeysP Model.C04_Tree Model.C04_Ops Model.C04_Views Model.C04_Step
+     Spec.C04_NestedDict Proofs.C04_AssocP Proofs.C04_CoreP Proofs.C04_RenameP Proofs.C04_ViewsP Proofs.C04_HistP
+     Proofs.C04_RefuteP.
+Open Scope string_scope.
+Open Scope list_scope.
 
+(* ------------------------------------------------------------------------------------------------------------
+   1. every spelling of a nested key denotes the same entry (C++ unravelling, Model/Keys.v) *)
 Theorem C04_unravel_spelling : forall k1 k2,
   wfb k1 = true -> wfb k2 = true -> strings k1 = strings k2 ->
   cpp_unravel_to_tuple k1 = cpp_unravel_to_tuple k2 /\ cpp_unravel_key k1 = cpp_unravel_key k2.
 Proof. exact unravel_spelling. Qed.
 Print Assumptions C04_unravel_spelling.
+
+(* ------------------------------------------------------------------------------------------------------------
+   2. refinement, one step: for every state and every operation in scope, the model's step (transcribed from the
+   code) and the plain nested dict agree on success/failure, on the state afterwards, on the returned value, on the
+   out-of-place results and on the object the history continues with; a failing step leaves the state unchanged. *)
+Theorem C04_refine_step : forall es o so,
+  abs_op o = Some so -> in_scope o ->
+  match nd_step py_split (absE es) so with
+  | Some r => sr_err (step es o) = None /\ abs_sres (step es o) = r
+  | None => sr_err (step es o) <> None /\ sr_cont (step es o) = es
+  end.
+Proof. exact refine_step. Qed.
+Print Assumptions C04_refine_step.
+
+(* 3. histories: for ALL operation lists (no bound), from any well-formed state, the abstraction of the model's final
+   state is the replay of the same history on the nested dict; well-formedness (unique keys per node) is invariant. *)
+Theorem C04_history : forall ops sops es, wfE es ->
+  Forall2 (fun o so => abs_op o = Some so /\ in_scope o /\ values_wf o) ops sops ->
+  absE (run es ops) = nd_run (absE es) sops /\ wfE (run es ops).
+Proof. exact history. Qed.
+Print Assumptions C04_history.
+
+(* the rename step in isolation, on canonical keys: pop-then-store = store-then-delete unless old < new (D42) *)
+Theorem C04_rename_refines : forall p q safe es, p <> [] -> q <> [] -> ~ strict_prefix p q ->
+  match rename_r (path_keyres p) (path_keyres q) safe es with
+  | (es', None) => nd_rename p q safe (absE es) = Some (absE es')
+  | (es', Some _) => nd_rename p q safe (absE es) = None /\ es' = es
+  end.
+Proof. intros p q safe es Np Nq. rewrite rename_r_path by assumption. now apply rename_p_refines. Qed.
+Print Assumptions C04_rename_refines.
+
+(* ------------------------------------------------------------------------------------------------------------
+   4. views, for every include_nested x leaves_only x sort x is_leaf combination *)
+Theorem C04_items_view : forall inc lo so nt es,
+  Permutation (map absI (items_view inc lo so nt es)) (nd_view inc lo nt (absE es))
+  /\ (so = false -> map absI (items_view inc lo so nt es) = nd_view inc lo nt (absE es))
+  /\ (so = true -> names_sorted (map (fun pv => dotted (fst pv)) (items_view inc lo so nt es))).
+Proof. exact items_view_spec. Qed.
+Print Assumptions C04_items_view.
+
+Theorem C04_keys_view : forall inc lo so nt es,
+  Permutation (keys_view inc lo so nt es) (map fst (nd_view inc lo nt (absE es)))
+  /\ (so = true -> names_sorted (map dotted (keys_view inc lo so nt es))).
+Proof. exact keys_view_spec. Qed.
+Print Assumptions C04_keys_view.
+
+Theorem C04_len_view : forall inc lo so nt es,
+  len_view inc lo so nt es = List.length (nd_view inc lo nt (absE es)).
+Proof. exact len_view_spec. Qed.
+Print Assumptions C04_len_view.
+
+(* values = the values of the items, except for D41 *)
+Theorem C04_values_view_partial : forall inc lo so nt es,
+  (inc = false /\ lo = false /\ so = true /\ es = []) \/
+  values_view inc lo so nt es = Ok (map snd (items_view inc lo so nt es)).
+Proof. exact values_view_spec. Qed.
+Print Assumptions C04_values_view_partial.
+
+Definition C04_values_view_full_statement : Prop := forall inc lo so nt es,
+  values_view inc lo so nt es = Ok (map snd (items_view inc lo so nt es)).
+
+Theorem C04_values_view_refuted :
+  values_view false false true false [] = Raise EOther /\ items_view false false true false [] = [].
+Proof. exact values_sorted_empty_refuted. Qed.
+Print Assumptions C04_values_view_refuted.
+
+(* membership agrees with iteration for nested views that are not leaves_only; get agrees with the dict *)
+Theorem C04_contains_partial : forall so nt p es b, wfE es -> p <> [] ->
+  view_contains_path true p es = Ok b -> (b = true <-> In p (keys_view true false so nt es)).
+Proof. exact contains_iff_listed. Qed.
+Print Assumptions C04_contains_partial.
+
+Definition C04_contains_full_statement : Prop := forall inc lo so nt k es b, wfE es -> wfb k = true ->
+  keys_contains inc lo nt k es = Ok b -> (b = true <-> In (strings k) (keys_view inc lo so nt es)).
+
+Theorem C04_contains_refuted :
+  exists es k, wfE es /\ wfb k = true /\
+    keys_contains true true false k es = Ok true /\ ~ In (strings k) (keys_view true true false false es).
+Proof. exact contains_leaves_only_refuted. Qed.
+Print Assumptions C04_contains_refuted.
+
+Theorem C04_get_refines : forall p es d, p <> [] ->
+  match get_tuple p es d with
+  | GVal v => nd_find p (absE es) = Found (abs v)
+  | GDef => nd_find p (absE es) = Missing /\ d = true
+  | GRaise e => (nd_find p (absE es) = Missing /\ d = false /\ e = EKey)
+                \/ (nd_find p (absE es) = ThroughLeaf /\ e <> EKey)
+  end.
+Proof. exact get_tuple_refines. Qed.
+Print Assumptions C04_get_refines.
+
+Theorem C04_present_refines : forall p es, p <> [] ->
+  match view_contains_path true p es with
+  | Ok b => b = foundb (nd_find p (absE es))
+  | Raise _ => nd_find p (absE es) = ThroughLeaf
+  end.
+Proof. exact view_contains_refines. Qed.
+Print Assumptions C04_present_refines.
+
+Theorem C04_is_empty : forall es, is_empty es = negb (nd_has_leaf (ND (absE es))).
+Proof. exact is_empty_spec. Qed.
+Print Assumptions C04_is_empty.
+
+Theorem C04_to_dict : forall es, absE (to_dict es) = absE es.
+Proof. exact to_dict_spec. Qed.
+Print Assumptions C04_to_dict.
+
+(* ------------------------------------------------------------------------------------------------------------
+   5. where /repo deviates from the nested dict: refuted statements with their witnesses *)
+Definition C04_refine_step_full_statement : Prop := forall es o so,
+  wfE es -> abs_op o = Some so -> values_wf o ->
+  match nd_step py_split (absE es) so with
+  | Some r => sr_err (step es o) = None /\ abs_sres (step es o) = r
+  | None => sr_err (step es o) <> None
+  end.
+
+Theorem C04_flatten_inplace_refuted :
+  exists es, wfE es /\
+    match nd_step py_split (absE es) (SFlatten "." true false) with
+    | Some r => sr_err (step es (OFlatten "." true false)) = None /\ absE (sr_self (step es (OFlatten "." true false))) <> s_self r
+    | None => False
+    end.
+Proof. exact flatten_inplace_refuted. Qed.
+Print Assumptions C04_flatten_inplace_refuted.
+
+Theorem C04_rename_refuted :
+  exists es k1 k2, wfE es /\ wfb k1 = true /\ wfb k2 = true /\ strict_prefix (strings k1) (strings k2) /\
+    match nd_step py_split (absE es) (SRename (strings k1) (strings k2) false) with
+    | Some r => sr_err (step es (ORename k1 k2 false)) = None /\ absE (sr_self (step es (ORename k1 k2 false))) <> s_self r
+    | None => False
+    end.
+Proof. exact rename_into_itself_refuted. Qed.
+Print Assumptions C04_rename_refuted.
+
+Theorem C04_contains_spelling_refuted :
+  exists es, wfE es /\ wfb (KT [KS ""]) = true /\ strings (KT [KS ""]) = strings (KS "") /\
+    td_contains (KS "") es = Ok true /\ td_contains (KT [KS ""]) es = Raise EOther.
+Proof. exact contains_empty_string_refuted. Qed.
+Print Assumptions C04_contains_spelling_refuted.
+
+(* ------------------------------------------------------------------------------------------------------------
+   non-vacuity: a three-level tree with an empty nested node and a non-tensor leaf meets the hypotheses *)
+Example C04_ex_wf : wfE ex_tree. Proof. exact ex_tree_wf. Qed.
+Example C04_ex_history :
+  let ops := [OSet (KT [KS "n"; KT [KS "b"; KS "c"]]) (Leaf LT 9);            (* through a leaf: raises, state unchanged *)
+              ORename (KT [KS "n"; KS "b"]) (KT [KT [KS "n"]]) false;          (* new key is a prefix of the old one *)
+              OPop (KS "zz") (Some 5%Z); OSetDefault (KT [KS "q"; KS "r"]) (Node []); ODel (KS "a"); OFilterEmpty] in
+  Forall (fun o => exists so, abs_op o = Some so /\ in_scope o /\ values_wf o) ops
+  /\ run ex_tree ops = [("n", Leaf LT 2%Z); ("s", Leaf LS 3%Z)].
+Proof.
+  split; [|reflexivity].
+  repeat constructor; eexists; (split; [reflexivity|]); split; cbn; try exact I; try constructor; try (repeat constructor).
+  intros [r [N E]]. cbn in E. destruct r; [congruence|discriminate].
+Qed.
